@@ -66,6 +66,7 @@
 import SpgProofs.Lemmas.ProbWL
 import SpgProofs.Properties.C02
 import SpgProofs.Properties.C04
+import SpgProofs.Properties.C10
 import SpgProofs.Properties.C07
 import SpgProofs.Properties.C08
 import SpgProofs.Properties.C13
@@ -1038,5 +1039,51 @@ example (cfg : Cfg) :
   norm_num
 
 end Example
+
+/-! ### Composition with C08 and C10: the bound for a list as `NewWordList` builds it -/
+section Composition
+
+/-- **C06 for wordlist recipes, end to end (constant separator).** Take any input list, any
+visiting order of the map that reaches every word, and an idempotent `title`; let `wl` be what
+`NewWordList` keeps (C10). Under the property's premise (title-casing is injective on the kept
+words) and with no word empty or emptied by title-casing, every token sequence is returned with
+probability at most `1/D`, where `D = size^L · capFactor` is exactly what `Entropy()` reports and
+every returned Password carries — the capitalisation bonus being claimed only when every kept
+word changes under title-casing (C08), which together with the normalisation invariant (C10) is
+what makes capitalised words distinguishable from list words. -/
+theorem wl_maxprob_of_newWordList (cfg : Cfg) (title : Word → Word) (hid : ∀ w, title (title w) = title w)
+    (input order : List Word) (hcover : ∀ w ∈ input, w ∈ order) (wl : WordList) (d : Nat)
+    (hnew : newWordListOrd title input order = some (wl, d))
+    (r : WLRecipe) (hl : r.list = some wl) (hne : wl.words ≠ []) (hL : 1 ≤ r.length)
+    (c : Word) (h : ConstSep r c)
+    (hnonempty : ∀ w ∈ wl.words, w ≠ [] ∧ title w ≠ [])
+    (hinj : ∀ w₁ ∈ wl.words, ∀ w₂ ∈ wl.words, title w₁ = title w₂ → w₁ = w₂)
+    (τ : List (Token Nat)) :
+    E (WLRecipe.generate cfg title r) (retTokens τ) ≤
+      1 / (((((wl.words.length : Nat) : Int) ^ r.length.toNat *
+              WLRecipe.capFactor r r.length.toNat : Int)) : ℚ) := by
+  have hok : ListOK title wl.words :=
+    ⟨C10.kept_nodup title input order wl d hnew, hnonempty, hinj⟩
+  apply wl_maxprob cfg title r wl hl hne hL h hok
+  intro hcf
+  -- a bonus is claimed only when every kept word is capitalisable
+  have hall : WLRecipe.allCap r = true := by
+    cases hA : WLRecipe.allCap r with
+    | true => rfl
+    | false => exfalso; apply hcf; simp [WLRecipe.capFactor, hA]
+  have hun : wl.unCap = 0 := by
+    simp only [WLRecipe.allCap, hl] at hall
+    simpa using hall
+  have hchg : ∀ w ∈ wl.words, title w ≠ w := (C08.allCap_iff title input order wl d hnew).mp hun
+  refine ⟨hchg, ?_⟩
+  intro w₁ h₁ w₂ h₂ heq
+  by_cases hw : w₁ = w₂
+  · subst hw; exact hchg w₁ h₁ heq
+  · -- w₂ would be the title-cased form of another listed word: NewWordList drops it
+    have hk₁ := (C10.kept_spec title hid input order hcover wl d hnew w₁).mp h₁
+    have hk₂ := (C10.kept_spec title hid input order hcover wl d hnew w₂).mp h₂
+    exact hk₂.2 ⟨w₁, hk₁.1, hw, heq⟩
+
+end Composition
 
 end Spg.C06
